@@ -376,9 +376,11 @@ def key_of(pd, req):
 
 
 INVS = {
-    "k0": ["SymmetricOut", "ScaleDominatesOut", "OnlyBlock", "PreloadAdds", "TilesAddUp", "ProbesNonNegative", "RigidBody"],
+    "k0": ["SymmetricOut", "ScaleDominatesOut", "OnlyBlock", "PreloadAdds", "TilesAddUp", "ProbesNonNegative", "RigidBody",
+           "ReferenceSurfaceInvariance"],
     "kG0": ["SymmetricOut", "ScaleDominatesOut", "OnlyW", "GeoLinear", "TilesAddUp"],
-    "kM": ["SymmetricOut", "ScaleDominatesOut", "TilesAddUp", "ProbesNonNegative", "MassPosDef", "RigidBody"],
+    "kM": ["SymmetricOut", "ScaleDominatesOut", "TilesAddUp", "ProbesNonNegative", "MassPosDef", "RigidBody",
+           "ReferenceSurfaceInvariance"],
     "kA": ["ScaleDominatesOut", "OnlyW", "AeroStructure"],
     "cA": ["SymmetricOut", "OnlyW"],
     "kAmach": ["MachRootOk", "OnlyW", "ScaleDominatesOut"],
@@ -396,7 +398,7 @@ def run_prop(prop, qs, tier, seed, build, nrand_quick=40, nrand_thorough=600, wh
     invs = sorted(set(i for q in qs for i in INVS[q]))
     cfg = ("SPECIFICATION EmitSpec\nCONSTANTS\nNFun = 8\nDeviations = {}\nTier = \"%s\"\nQs = {%s}\n%s\nCHECK_DEADLOCK FALSE\n"
            % (tier, ", ".join('"%s"' % q for q in qs), "\n".join("INVARIANT " + i for i in invs)))
-    mc = run_tlc(prop.lower() + "-mc", "MC_PanelModel", cfg, workers=16, timeout=6000, heap="16g")
+    mc = run_tlc(prop.lower() + "-mc", "MC_PanelModel", cfg, workers=16, timeout=6000, heap="8g")
     rep.add_tlc("MC_PanelModel", mc)
     if not mc.ok:
         rep.machinery("TLC on MC_PanelModel failed: " + mc.errors())
